@@ -1,6 +1,76 @@
-(* C12 -- placeholder until MatchProofs.v lands *)
-From Coq Require Import List.
-Require Import Pyrefact.MatchModel.
-Theorem T12_placeholder : forall v, match_tmpl TAny v <> None.
-Proof. intros v; discriminate. Qed.
-Print Assumptions T12_placeholder.
+(* C12 -- Pattern matching agrees with its declarative semantics.
+   Property theorems only; every proof is `exact <lemma>`; Print Assumptions under each.
+   Model: Pyrefact.MatchModel (match_tmpl mirrors core.match_template; Matches is the declarative
+   semantics).  Proofs: Pyrefact.MatchProofs. *)
+From Coq Require Import List Arith Bool ZArith NArith String.
+Import ListNotations.
+Require Import Pyrefact.MatchModel Pyrefact.MatchProofs.
+
+(* T12.1 soundness: whatever the matcher reports is an instance of the pattern under the reported
+   bindings (consistent wildcards, regex-legal split of every list), for every template in which a
+   wildcard's own template binds nothing (what compile_template produces). *)
+Theorem T12_1_soundness :
+  forall t v r, wf_tmpl t = true -> match_tmpl t v = Some r -> Matches (env_of (snd r)) t v.
+Proof. exact match_sound. Qed.
+Print Assumptions T12_1_soundness.
+
+(* ... and soundness at full strength is refuted by a wildcard nested directly in a wildcard (the
+   inner name is dropped, core.py:264): hand-built templates only. *)
+Theorem T12_1_soundness_refuted_unguarded :
+  exists t v r, match_tmpl t v = Some r /\ forall rho, ~ Matches rho t v.
+Proof. exact sound_refuted_nested_wildcard. Qed.
+Print Assumptions T12_1_soundness_refuted_unguarded.
+
+(* T12.2 the count-vector enumeration of _iter_template_permutations is exactly the set of legal
+   count vectors of the right sum: the `slack` bound never excludes one (Appendix A.1's open lemma) *)
+Theorem T12_2_count_vectors :
+  forall (its : list (item tmpl)) n cs, In cs (cvecs its n) <-> legal its cs /\ nsum cs = n.
+Proof. exact (@cvecs_spec tmpl). Qed.
+Print Assumptions T12_2_count_vectors.
+
+(* T12.2 the list core, both directions: for item lists that bind no names the matcher accepts
+   exactly the regular-expression reading *)
+Theorem T12_2_list_core :
+  forall its rho k l,
+    forallb (fun i => nowild (tmpl_of i)) its = true ->
+    (match_tmpl (TList its) (VL k l) <> None <-> LMatch (Matches rho) its l).
+Proof. exact list_core_exact. Qed.
+Print Assumptions T12_2_list_core.
+
+(* ... and for every binding-free template (types, tuples, sets, lists, nodes, {{...}}) *)
+Theorem T12_2_exact_binding_free :
+  forall t rho v, nowild t = true -> (match_tmpl t v <> None <-> Matches rho t v).
+Proof. exact match_exact_nowild. Qed.
+Print Assumptions T12_2_exact_binding_free.
+
+(* T12.3 completeness for linear templates (each name once, in unquantified positions) *)
+Theorem T12_3_completeness_partial :
+  forall t rho v, linear t = true -> Matches rho t v -> match_tmpl t v <> None.
+Proof. exact match_complete_linear. Qed.
+Print Assumptions T12_3_completeness_partial.
+
+(* R12.4 completeness at full strength is refuted (known findings F12-1, F12-2) *)
+Theorem R12_4_completeness_refuted_no_backtracking :
+  exists t v rho, wf_tmpl t = true /\ Matches rho t v /\ match_tmpl t v = None.
+Proof. exact complete_refuted_no_backtracking. Qed.
+Print Assumptions R12_4_completeness_refuted_no_backtracking.
+
+Theorem R12_4_completeness_refuted_named_quantifier :
+  exists t v rho, wf_tmpl t = true /\ Matches rho t v /\ match_tmpl t v = None.
+Proof. exact complete_refuted_named_quantifier. Qed.
+Print Assumptions R12_4_completeness_refuted_named_quantifier.
+
+(* T12.5 reflexivity: every tree matches the template it embeds to, binding nothing *)
+Theorem T12_5_reflexivity :
+  forall v, wf_value v = true -> match_tmpl (embed v) v = Some (Some v, []).
+Proof. exact match_reflexive. Qed.
+Print Assumptions T12_5_reflexivity.
+
+(* every result binds each name at most once and only names of the template *)
+Theorem T12_result_names :
+  forall t v r, match_tmpl t v = Some r -> incl (bnames (snd r)) (names t) /\ NoDup (bnames (snd r)).
+Proof. exact result_names. Qed.
+Print Assumptions T12_result_names.
+
+Example T12_guards_nonvacuous : wf_tmpl R1_t = true /\ linear R1_t = false.
+Proof. exact wf_example_repeated_names. Qed.
